@@ -150,7 +150,9 @@ func usedElement(t vlib.TB, g group.Group, entry, sub string, b []byte) {
 			}
 			u, err1 := e.MarshalBinary()
 			c, err2 := e.MarshalBinaryCompress()
-			o.views = [][]byte{u, c}
+			d, _ := g.NewElement().Dbl(e).MarshalBinary()
+			a, _ := g.NewElement().Add(e, g.Generator()).MarshalBinary()
+			o.views = [][]byte{u, c, d, a}
 			o.flags = []bool{err1 == nil, err2 == nil, e.IsIdentity()}
 			if freshVal != nil {
 				o.flags = append(o.flags, e.IsEqual(freshVal), freshVal.IsEqual(e))
